@@ -39,6 +39,10 @@ pub enum Op {
         /// list the assets in the message in the opposite order to the pool's own
         #[serde(default)]
         reversed: bool,
+        /// how the attached native funds / cw20 allowances relate to the declared amounts
+        /// (pools::distort_funds: 0 exact, 1 one short, 2 half, 3 none, 4 one more, 5 extra denom)
+        #[serde(default)]
+        funds: u8,
     },
     /// deposit in the pool's current ratio: k/65536 of reserve 0 and the matching amount of 1
     ProvideBalanced { user: u8, k: u16 },
@@ -49,11 +53,15 @@ pub enum Op {
         amt: Amt,
         spread: Spread,
         to: Option<u8>,
+        #[serde(default)]
+        funds: u8,
     },
     Collect { caller: u8 },
     /// adversarial: the direct `WithdrawLiquidity {}` message (token-factory LP pools) with one
     /// native coin of denom uaaa / ubbb / uccc attached, sent to this cw20-LP pool
     WithdrawDirect { user: u8, denom: u8, amount: Uint128 },
+    /// adversarial: a cw20 Receive hook from the wrong place (pools::PairWorld::forged_hook)
+    ForgedHook { user: u8, via: u8, swap_hook: bool, amount: Uint128 },
     /// directed shape: a swap sized (by bisection over the pool's own Simulation query) so that the
     /// pending protocol fee of the ask asset lands exactly on `target` (the collection threshold
     /// and its neighbours); with `then_collect` a separate, separately judged Collect step follows
@@ -108,17 +116,24 @@ fn fee_arr() -> BoxedStrategy<[Uint128; 3]> {
     .boxed()
 }
 
+/// mostly exact funds; the rest spread over the distortions of pools::distort_funds
+pub fn funds_mode() -> BoxedStrategy<u8> {
+    prop_oneof![17 => Just(0u8), 3 => 1u8..6].boxed()
+}
+
 pub fn op() -> BoxedStrategy<Op> {
     prop_oneof![
-        3 => (0u8..4, amt(), amt(), proptest::option::of(0u8..4), proptest::option::of(0u8..4), any::<bool>())
-            .prop_map(|(user, a0, a1, slippage, receiver, reversed)| Op::Provide { user, a0, a1, slippage, receiver, reversed }),
+        3 => (0u8..4, amt(), amt(), proptest::option::of(0u8..4), proptest::option::of(0u8..4), any::<bool>(), funds_mode())
+            .prop_map(|(user, a0, a1, slippage, receiver, reversed, funds)| Op::Provide { user, a0, a1, slippage, receiver, reversed, funds }),
         3 => (0u8..4, any::<u16>()).prop_map(|(user, k)| Op::ProvideBalanced { user, k }),
         4 => (0u8..4, gen::share_sel()).prop_map(|(user, k)| Op::Withdraw { user, k }),
-        8 => (0u8..4, any::<bool>(), small_amt(), spread(), proptest::option::weighted(0.2, 0u8..4))
-            .prop_map(|(user, dir, amt, spread, to)| Op::Swap { user, dir, amt, spread, to }),
+        8 => (0u8..4, any::<bool>(), small_amt(), spread(), proptest::option::weighted(0.2, 0u8..4), funds_mode())
+            .prop_map(|(user, dir, amt, spread, to, funds)| Op::Swap { user, dir, amt, spread, to, funds }),
         2 => (0u8..5).prop_map(|caller| Op::Collect { caller }),
         1 => (0u8..4, 0u8..3, prop_oneof![Just(1u128), Just(999), Just(1000), Just(1001), gen::amount(1, 1u128 << 70)])
             .prop_map(|(user, denom, a)| Op::WithdrawDirect { user, denom, amount: Uint128::new(a) }),
+        1 => (0u8..4, 0u8..3, any::<bool>(), prop_oneof![Just(1u128), Just(1000), gen::amount(1, 1u128 << 70)])
+            .prop_map(|(user, via, swap_hook, a)| Op::ForgedHook { user, via, swap_hook, amount: Uint128::new(a) }),
         1 => (0u8..4, any::<bool>(), prop_oneof![Just(999u16), Just(1000), Just(1001), 1u16..3000], proptest::bool::weighted(0.8))
             .prop_map(|(user, dir, target, then_collect)| Op::SwapToPending { user, dir, target, then_collect }),
         1 => fee_arr().prop_map(|fees| Op::SetFees { fees }),
@@ -180,7 +195,7 @@ impl Check for CpPoolHistory {
         "cp_pool_history"
     }
     fn rule(&self) -> &'static str {
-        "configuration (native/cw20 kinds, decimals, fee triple) + history of up to 40 (quick) / 120 (thorough) operations by 4 users {provide, balanced provide, withdraw, native/cw20 swap with spread settings and receivers, fee collection by anyone, the direct WithdrawLiquidity message with a native coin attached (must never pay anyone who gives up no LP), swap sized by bisection over the Simulation query so that the pending protocol fee lands exactly on 999 / 1000 / 1001 (the collection threshold) or a random target, followed by a separately judged collection, fee change through the factory, donation, provide-then-withdraw, block advance}, amounts absolute (log-uniform up to 2^120 + boundaries) or relative to reserves/balances; the real pair created through the real factory. After every step: Pool query succeeds, balance >= reserve + pending fee, geometric mean per LP not lower (exact U1024), withdrawals <= pro-rata, deposit-then-withdraw <= deposited, minimum-liquidity stake locked, rejected step leaves the world snapshot unchanged. Non-trivial: >= 1 successful swap and >= 1 successful withdrawal after a second depositor joined; distinct by case hash."
+        "configuration (native/cw20 kinds, decimals, fee triple) + history of up to 40 (quick) / 120 (thorough) operations by 4 users {provide (assets listed in either order; attached native funds / cw20 allowances exact, short, halved, missing, over-paid or with an extra denom), balanced provide, withdraw, native/cw20 swap with spread settings and receivers, fee collection by anyone, the direct WithdrawLiquidity message with a native coin attached (must never pay anyone who gives up no LP), cw20 Receive hooks sent directly by a user / by a pool asset's cw20 with the withdraw hook / by the LP token with the swap hook, swap sized by bisection over the Simulation query so that the pending protocol fee lands exactly on 999 / 1000 / 1001 (the collection threshold) or a random target, followed by a separately judged collection, fee change through the factory, donation, provide-then-withdraw, block advance}, amounts absolute (log-uniform up to 2^120 + boundaries) or relative to reserves/balances; the real pair created through the real factory. After every step: Pool query succeeds, balance >= reserve + pending fee, geometric mean per LP not lower (exact U1024), withdrawals <= pro-rata, deposit-then-withdraw <= deposited, minimum-liquidity stake locked, rejected step leaves the world snapshot unchanged. Non-trivial: >= 1 successful swap and >= 1 successful withdrawal after a second depositor joined; distinct by case hash."
     }
     fn strategy(&self, tier: Tier) -> BoxedStrategy<Case> {
         let max_ops = tier.pick(40usize, 120usize);
@@ -197,6 +212,7 @@ impl Check for CpPoolHistory {
                             slippage: None,
                             receiver: None,
                             reversed: false,
+                            funds: 0,
                         },
                     );
                     if shape > 2 {
@@ -229,11 +245,16 @@ impl Check for CpPoolHistory {
         }
         for (step, op) in ops.iter().enumerate() {
             pw.reversed_msgs = false;
+            pw.funds_mode = 0;
             let mut snap = pw.w.snapshot();
             let mut skip_value_check = false;
             let res: Result<(), String> = match op {
-                Op::Provide { user, a0, a1, slippage, receiver, reversed } => {
+                Op::Provide { user, a0, a1, slippage, receiver, reversed, funds } => {
                     pw.reversed_msgs = *reversed;
+                    pw.funds_mode = *funds;
+                    if *funds != 0 {
+                        rec.class("provide_with_mismatched_funds_attempt");
+                    }
                     let usr = pw.user(*user);
                     let amounts = [
                         resolve(a0, before.reserves[0], pw.w.bal(&pw.infos[0], &usr)),
@@ -241,11 +262,25 @@ impl Check for CpPoolHistory {
                     ];
                     let sl = slippage.map(|s| [dec(0), dec(10_000_000_000_000_000), dec(500_000_000_000_000_000), Decimal::one()][s as usize % 4]);
                     let recv = receiver.map(|r| pw.user(r));
-                    pw.grant(&usr, amounts);
+                    // cw20 allowances follow the same distortion as the native funds
+                    let granted = match *funds {
+                        1 => [amounts[0].saturating_sub(1), amounts[1]],
+                        2 => [amounts[0] / 2, amounts[1] / 2],
+                        3 => [0, 0],
+                        _ => amounts,
+                    };
+                    pw.grant(&usr, granted);
                     snap = pw.w.snapshot();
+                    let to = recv.clone().unwrap_or_else(|| usr.clone());
                     let r = pw.provide_exec(&usr, amounts, sl, recv.as_ref());
                     if r.is_ok() {
                         rec.class("provide_ok");
+                        if to != usr {
+                            rec.class("provide_for_receiver_ok");
+                        }
+                        if *funds != 0 {
+                            rec.class(&format!("provide_with_mismatched_funds_accepted_mode{}", funds));
+                        }
                         depositors.insert(receiver.unwrap_or(*user));
                         first_deposit_done = true;
                     }
@@ -296,7 +331,8 @@ impl Check for CpPoolHistory {
                     }
                     r.map(|_| ())
                 }
-                Op::Swap { user, dir, amt, spread, to } => {
+                Op::Swap { user, dir, amt, spread, to, funds } => {
+                    pw.funds_mode = *funds;
                     let usr = pw.user(*user);
                     let oi = if *dir { 1 } else { 0 };
                     let amount = resolve(amt, before.reserves[oi], pw.w.bal(&pw.infos[oi], &usr));
@@ -377,6 +413,24 @@ impl Check for CpPoolHistory {
                         );
                     } else {
                         rec.class("withdraw_direct_rejected");
+                    }
+                    r.map(|_| ())
+                }
+                Op::ForgedHook { user, via, swap_hook, amount } => {
+                    let usr = pw.user(*user);
+                    let lp_b = pw.lp_balance(&usr);
+                    let supply_b = before.total_share;
+                    let r = pw.forged_hook(&usr, *via, *swap_hook, amount.u128());
+                    if r.is_ok() {
+                        rec.class("hook_message_accepted");
+                        let lp_a = pw.lp_balance(&usr);
+                        let supply_a = pw.view().map(|v| v.total_share).unwrap_or(0);
+                        ensure!(
+                            supply_a >= supply_b || lp_b.saturating_sub(lp_a) >= supply_b - supply_a,
+                            "step {step}: a cw20 hook (via {via}, swap hook {swap_hook}, amount {amount}) burnt LP nobody gave up: supply {supply_b} -> {supply_a}, sender's LP {lp_b} -> {lp_a}"
+                        );
+                    } else {
+                        rec.class("hook_message_rejected");
                     }
                     r.map(|_| ())
                 }
